@@ -140,7 +140,9 @@ def linear_matrix_action(linear_map, n, **kwargs):
     if "like" not in kwargs:
         kwargs["like"] = linear_map
 
-    base_ring, dtype = utils.check_type(**kwargs)
+    # the matrix of a linear map is not integer-valued in general, even
+    # if the data defining the map is
+    base_ring, dtype = utils.check_type(integer_type=False, **kwargs)
     map_matrix = utils.zeros((n*n, n*n), base_ring, dtype)
 
     for i in range(n):
@@ -159,7 +161,9 @@ def sln_linear_action(linear_map, n, **kwargs):
     if "like" not in kwargs:
         kwargs["like"] = linear_map
 
-    base_ring, dtype = utils.check_type(**kwargs)
+    # the matrix of a linear map is not integer-valued in general, even
+    # if the data defining the map is
+    base_ring, dtype = utils.check_type(integer_type=False, **kwargs)
     map_matrix = utils.zeros((n**2 - 1, n**2 - 1), base_ring, dtype)
 
     for i in range(n):
